@@ -18,10 +18,12 @@ structure Field where
   attrs : Nat := 0        -- number of field-level `#[ssz(..)]` attributes
 deriving Repr
 
-/-- one enum variant: the schemas of its fields, and whether they are named (`V { x: T }`) -/
+/-- one enum variant: the schemas of its fields, whether they are named (`V { x: T }`), and whether
+    a field-less variant is written with delimiters (`V()` / `V {}`) rather than as a unit variant -/
 structure Variant where
   fields : List Ty
   named : Bool := false
+  parens : Bool := false
 deriving Repr
 
 inductive StructBeh where | container | transparent | invalid
@@ -59,7 +61,7 @@ def acceptsEncode : Def → Bool
      | some .invalid => false
      | some .union => variants.all (fun v => v.fields.length == 1 && !v.named) &&
                       (computeUnionSelectors variants.length).isSome
-     | some .tag => variants.all (fun v => v.fields.isEmpty) &&
+     | some .tag => variants.all (fun v => v.fields.isEmpty && !v.named && !v.parens) &&
                     (computeUnionSelectors variants.length).isSome
      | some .transparent => variants.all (fun v => v.fields.length == 1 && !v.named))
 
@@ -78,7 +80,7 @@ def acceptsDecode : Def → Bool
      | some .invalid => false
      | some .union => variants.all (fun v => v.fields.length == 1 && !v.named) &&
                       (computeUnionSelectors variants.length).isSome
-     | some .tag => variants.all (fun v => v.fields.isEmpty) &&
+     | some .tag => variants.all (fun v => v.fields.isEmpty && !v.named && !v.parens) &&
                     (computeUnionSelectors variants.length).isSome
      | some .transparent => variants.all (fun v => v.fields.length == 1 && !v.named))
 
@@ -102,24 +104,29 @@ def decSchema : Def → Ty
   | .enum_ (some .tag) _ vs => .tagEnum vs.length
   | .enum_ _ _ vs => .transparentEnum (vs.map variantTy)
 
+mutual
 /-- `<_>::default()` of a field type, as a value of the model -/
 def Ty.default : Ty → Val
   | .uint _ => .uint 0
   | .bool => .bool false
-  | .nonZeroUsize => .uint 1
+  | .nonZeroUsize => .uint 1            -- (NonZeroUsize has no Default; such a field cannot be skipped)
   | .bytesN n => .bytes (List.replicate n 0)
   | .byteList => .bytes []
   | .list _ _ => .list []
   | .option _ => .none
   | .legacyOption _ => .none
-  | .tuple _ => .tuple []
-  | .container _ => .tuple []
-  | .union _ => .union 0 (.uint 0)
+  | .tuple ts => .tuple (defaults ts)
+  | .container ts => .tuple (defaults ts)
+  | .union ts => (match ts with | t :: _ => .union 0 t.default | [] => .union 0 (.uint 0))
   | .tagEnum _ => .tag 0
-  | .transparentEnum _ => .union 0 (.uint 0)
+  | .transparentEnum ts => (match ts with | t :: _ => .union 0 t.default | [] => .union 0 (.uint 0))
   | .bitvector n => .bits (List.replicate n false)
   | .bitlist _ => .bits []
   | .bitvectorDyn => .bits []
+def defaults : List Ty → List Val
+  | [] => []
+  | t :: ts => t.default :: defaults ts
+end
 
 /-- the field values the encoder looks at, from the full list of field values -/
 def projectSer : List Field → List Val → List Val
